@@ -95,6 +95,32 @@ def h : Handler := fun op j =>
       let a ← getReaction (← j.getObjVal? "a" |>.mapError fun _ => "!bad-arg:a")
       let b ← getReaction (← j.getObjVal? "b" |>.mapError fun _ => "!bad-arg:b")
       pure (if Reaction.eq a b then "True" else "False")
+  | "copy" => do
+      -- construct from containers of the given kinds, apply in-place renames, copy; answer: copy == original, printed copy
+      let kinds ← (← getStrList j "kinds").mapM fun k =>
+        match k with
+        | "dict" => pure ContainerKind.dict
+        | "ordered" => pure ContainerKind.ordered
+        | "set" => pure ContainerKind.set
+        | _ => throw "!bad-arg:kinds"
+      match kinds with
+      | [kr, kp, kir, kip] =>
+        let r0 := Reaction.construct kr kp kir kip (← getDict j "reac") (← getDict j "prod") (← getDict j "inact_reac")
+          (← getDict j "inact_prod") (← getOptS j "param") (← getOptS j "name")
+        let edits ← (← getArr j "edits").mapM fun e =>
+          match e with
+          | .arr #[.str side, .str old, .str new] => pure (side, old.toList, new.toList)
+          | _ => throw "!bad-arg:edits"
+        let r := edits.foldl (fun (r : Reaction) e =>
+          match e.1 with
+          | "reac" => { r with reac := dictRename r.reac e.2.1 e.2.2 }
+          | "prod" => { r with prod := dictRename r.prod e.2.1 e.2.2 }
+          | _ => r) r0
+        let c := r.copy
+        pure ((if Reaction.eq c r then "True" else "False") ++ " " ++ showDict c.reac ++ " " ++ showDict c.prod ++ " "
+          ++ showDict c.inactReac ++ " " ++ showDict c.inactProd ++ " "
+          ++ showOptOut (printReaction (← getS j "arrow") true true c))
+      | _ => throw "!bad-arg:kinds"
   | "copy_eq" => do
       let a ← getReaction j
       pure (if Reaction.eq a.copy a then "True" else "False")
